@@ -6,6 +6,7 @@ pub mod ll;
 pub mod lr;
 pub mod robust;
 pub mod scanner;
+pub mod small;
 pub mod transform;
 
 pub fn run(id: &str, tier: Tier, replay: Option<&str>) -> i32 {
@@ -15,6 +16,7 @@ pub fn run(id: &str, tier: Tier, replay: Option<&str>) -> i32 {
         "C03" | "C04" => lr::run(id, tier, replay),
         "C19" | "C20" => robust::run(id, tier, replay),
         "C13" | "C14" | "C15" | "C16" | "C17" => scanner::run(id, tier, replay),
+        "C31" | "C32" => small::run(id, tier, replay),
         "C05" | "C06" | "C07" | "C08" => analysis::run(id, tier, replay),
         "dbg" => dbg::run(&std::env::args().skip(2).collect::<Vec<_>>()),
         "spaces" => {
